@@ -3,6 +3,7 @@ C07 — Decoding validates untrusted bytes; encoding is canonical and round-trip
 Integer part (bn_read_bin / bn_write_bin / bn_size_bin, bn_read_str / bn_write_str / bn_size_str).
 -/
 import RelicVerif.Lemmas.BnConv
+import RelicVerif.Lemmas.EpConv
 
 namespace Relic.Props.C07
 open Relic.Model
@@ -51,5 +52,49 @@ theorem bn_str_errors (a : Bn) (radix len : Nat) :
 /-- non-vacuity -/
 example : bnWriteBin 64 3 { neg := false, dp := [0x1ff] } = some [0, 1, 0xff] := by decide
 example : bnReadBin { w := 8, cap := 66 } [0, 1, 0xff] = some { neg := false, dp := [0xff, 1] } := by decide
+
+
+/-! ### elliptic-curve point encodings (Model/EpConv.lean; ep_read_bin / ep_write_bin / ep_pck / ep_upk) -/
+section Ep
+open Relic.Model.EpConv Relic.Spec.Curve
+
+/-- decoding accepts only valid points: whatever `ep_read_bin` returns is the identity or satisfies the curve equation
+    with canonical coordinates -/
+theorem ep_decode_valid (x : Ctx) (hp : 1 < x.c.p) (hs : SrtSound x) (bin : Bytes) (P : Point)
+    (h : readBin x bin = some P) : onCurve x.c P = true :=
+  readBin_valid x hp hs bin P h
+
+/-- re-encoding what was decoded reproduces the input bytes (same length, same compression) — off the 2-torsion
+    for the compressed form, see `ep_compressed_two_torsion_malleable` -/
+theorem ep_encode_decode (x : Ctx) (hp : 1 < x.c.p) (hnb : x.c.p ≤ 256 ^ x.nb) (hs : SrtSound x) (hsep : SignSeparates x)
+    (bin : Bytes) (P : Point) (h : readBin x bin = some P)
+    (hy0 : bin.length = x.nb + 1 → ∀ px, P ≠ some (px, 0)) :
+    writeBin x bin.length P (bin.length = x.nb + 1) = some bin :=
+  writeBin_readBin x hp hnb hs hsep bin P h hy0
+
+/-- decoding what was encoded returns the point, compressed or not -/
+theorem ep_decode_encode (x : Ctx) (hp : 1 < x.c.p) (hnb : x.c.p ≤ 256 ^ x.nb) (hnb0 : 0 < x.nb) (hs : SrtSound x)
+    (hc : SrtComplete x) (hsep : SignSeparates x) (hprime : ∀ d, d ∣ x.c.p → d = 1 ∨ d = x.c.p)
+    (P : Point) (hP : onCurve x.c P = true) (pack : Bool) (b : Bytes)
+    (h : writeBin x (sizeBin x P pack) P pack = some b) : readBin x b = some P :=
+  readBin_writeBin x hp hnb hnb0 hs hc hsep hprime P hP pack b h
+
+/-- no two distinct byte strings of the same length decode to the same point (same restriction) -/
+theorem ep_decode_injective (x : Ctx) (hs : SrtSound x) (hsep : SignSeparates x) (b1 b2 : Bytes) (P : Point)
+    (h1 : readBin x b1 = some P) (h2 : readBin x b2 = some P) (hl : b1.length = b2.length)
+    (hy0 : b1.length = x.nb + 1 → ∀ px, P ≠ some (px, 0)) : b1 = b2 :=
+  readBin_inj x hs hsep b1 b2 P h1 h2 hl hy0
+
+/-- the excluded case is real: a point (x, 0) of order two has two accepted compressed encodings (tags 2 and 3); no
+    shipped curve of the verified configurations has such a point (odd prime order times cofactor 1), C18 -/
+theorem ep_compressed_two_torsion_malleable (x : Ctx) (hnb : x.c.p ≤ 256 ^ x.nb) (hnb0 : 0 < x.nb) (hs : SrtSound x)
+    (hc : SrtComplete x) (hprime : ∀ d, d ∣ x.c.p → d = 1 ∨ d = x.c.p) (px : Nat)
+    (hon : onCurve x.c (some (px, 0)) = true) :
+    readBin x (2 :: beBytes px x.nb) = some (some (px, 0)) ∧
+    readBin x (3 :: beBytes px x.nb) = some (some (px, 0)) ∧
+    writeBin x (x.nb + 1) (some (px, 0)) true = some (2 :: beBytes px x.nb) :=
+  readBin_twoTorsion_malleable x hnb hnb0 hs hc hprime px hon
+
+end Ep
 
 end Relic.Props.C07
